@@ -6,7 +6,7 @@
    octets, for every type code and every RDATA. *)
 From Dns Require Import Base.ListX Model.Present Proofs.EscapeProofs Proofs.PresentEscProofs
      Proofs.PresentCodeProofs Proofs.PresentLexProofs Proofs.PresentTxtProofs Proofs.PresentWordProofs
-     Proofs.PresentGrammarProofs.
+     Proofs.PresentAtomProofs Proofs.PresentGrammarProofs.
 From Coq Require Import Lia ZifyN ZifyNat ZifyBool.
 Open Scope N_scope.
 
@@ -394,4 +394,66 @@ Proof.
   - intros ls H. cbn [norm_val]. now rewrite sprint_name_canonical.
   - intros ws H. cbn [norm_val]. f_equal. rewrite map_map. apply map_ext_in. intros w Hw.
     rewrite Forall_forall in H. apply sprint_txt_body_canonical, (H w Hw).
+Qed.
+
+(* ---- the irregular printers and parsers ---- *)
+Theorem time_roundtrip now t : (0 <= now)%Z -> t < 4294967296 ->
+  string_to_time (time_to_string now t) = Some t.
+Proof.
+  intros Hn Ht. rewrite time_to_string_now by assumption. rewrite string_to_time_format by lia.
+  now rewrite N2Z.id.
+Qed.
+
+(* with a clock before 1970 the serial-number correction of TimeToString is not undone by StringToTime *)
+Theorem time_before_1970_refuted : string_to_time (time_to_string (-4294967296) 0) = Some 2147483648.
+Proof. vm_compute. reflexivity. Qed.
+
+Theorem mnemonic_roundtrip m n bits r : n < 2 ^ bits ->
+  read_single (P_mnem m bits) (TStr (show_mnem m n) :: r) = Ok (V_int n, r).
+Proof.
+  intro H. destruct (single_ok (P_mnem m bits) (V_int n) eq_refl H) as (i & Ei & Er).
+  cbn [field_items] in Ei. injection Ei as <-. exact (Er r).
+Qed.
+
+(* X25 with an empty address prints nothing; the newline token is read as the address *)
+Theorem x25_empty_refuted :
+  parse_fields [P_word false] (lex_rdata (present_fields [P_word false] [V_word []] ++ [10])) = Ok [V_word [10]].
+Proof. vm_compute. reflexivity. Qed.
+
+(* CAA with an empty tag: the opening quote of the value stands where the tag is expected *)
+Theorem caa_empty_tag_refuted :
+  parse_fields [P_uint 8; P_word true; P_octet]
+    (lex_rdata (present_fields [P_uint 8; P_word true; P_octet] [V_int 0; V_word []; V_octet [120]] ++ [10])) = Err "word".
+Proof. vm_compute. reflexivity. Qed.
+
+(* NSEC3: whatever HashLength the record had, the parser sets 20 *)
+Theorem nsec3_hash_length_refuted n w r : word_ok w = true ->
+  read_single P_b32 (TStr w :: r) = Ok (V_sized 20 w, r) /\
+  (n <> 20 -> V_sized 20 w <> V_sized n w).
+Proof.
+  intro H. split.
+  - apply word_ok_nonempty in H. destruct w; [congruence|reflexivity].
+  - intros Hn E. injection E as E. congruence.
+Qed.
+
+(* non-vacuity: an RRSIG, a NAPTR and an NSEC3 row with well-formed values *)
+Example irregular_example :
+  let sig := [V_int 1; V_int 8; V_int 2; V_int 3600; V_time 1790000000%Z 4294967295; V_time 1790000000%Z 0;
+              V_int 65535; V_name (bytes_of_string "example."); V_word (bytes_of_string "AAAA")] in
+  let naptr := [V_int 100; V_int 10; V_word (bytes_of_string "u"); V_word []; V_word (bytes_of_string "!^.*$!a\""b!");
+                V_name (bytes_of_string ".")] in
+  let nsec3 := [V_int 1; V_int 0; V_int 12; V_sized 2 (bytes_of_string "aabb"); V_sized 20 (bytes_of_string "2vptu5timamqttgl4luu9kg21e0aor3s");
+                V_types [1; 46]] in
+  (exists G, playout 46 = Some G /\ Forall2 wf_val G sig /\
+             parse_fields G (lex_rdata (present_fields G sig ++ [10])) = Ok (norm_all G sig)) /\
+  (exists G, playout 35 = Some G /\ Forall2 wf_val G naptr /\
+             parse_fields G (lex_rdata (present_fields G naptr ++ [10])) = Ok naptr) /\
+  (exists G, playout 50 = Some G /\ Forall2 wf_val G nsec3).
+Proof.
+  cbv zeta.
+  assert (T : forall G vs, Forall2 (fun f v => wf_val f v) G vs -> Forall2 wf_val G vs) by (intros; assumption).
+  split; [|split]; eexists; (split; [reflexivity|]); try split; try (vm_compute; reflexivity);
+    repeat constructor; cbn [wf_val]; repeat split; try lia; try (vm_compute; reflexivity); try discriminate;
+    try (repeat constructor; lia).
+  right. split; [vm_compute; reflexivity|discriminate].
 Qed.
